@@ -133,13 +133,17 @@ func c14Menu(thorough bool) []c14Op {
 		{Name: "update(snapd)", Targets: []string{c14Snapd}, Kind: "refresh-snap"},
 		{Name: "revert(snapd)", Targets: []string{c14Snapd}, Kind: "revert-snap", Exclusive: true},
 		{Name: "exclusive(remodel)", Kind: "remodel", Exclusive: true},
+		// remove of one named revision: a kept revision that is not the current one (A keeps [5 7], current 7) and
+		// the current one (I keeps only [2] and is disabled; the current revision of an active snap cannot be named).
+		// Same conflict verdict as a plain remove of the snap.
+		{Name: "remove-revision(A,5)", Targets: []string{c14A}, Kind: "remove-snap"},
+		{Name: "remove-revision(I,2)", Targets: []string{c14I}, Kind: "remove-snap"},
 		// stale-record scenarios (leaves)
 		{Name: "update(A)/stale:A-changed", Targets: []string{c14A}, Kind: "refresh-snap", Stale: "mutA", Leaf: true},
 		{Name: "update(A)/stale:B-changed", Targets: []string{c14A}, Kind: "refresh-snap", Stale: "mutB", Leaf: true},
 		{Name: "update(A)/stale:change-sneaks-in", Targets: []string{c14A}, Kind: "refresh-snap", Stale: "sneak", Leaf: true},
 		{Name: "install(C)/stale:C-appears", Targets: []string{c14C}, Kind: "install-snap", Stale: "setC", Leaf: true},
 		// thorough only
-		{Name: "remove-revision(A,5)", Targets: []string{c14A}, Kind: "remove-snap", Thorough: true},
 		{Name: "unalias(alias0)", Targets: []string{c14A}, Kind: "unalias", Thorough: true},
 		{Name: "prefer(A)", Targets: []string{c14A}, Kind: "prefer", Thorough: true},
 		{Name: "remove(B)", Targets: []string{c14B}, Kind: "remove-snap", Thorough: true},
@@ -862,6 +866,8 @@ func (w *c14World) issue(op c14Op) (names []string, tss []*state.TaskSet, err er
 		return c14Names(c14One(snapstate.Remove(st, c14A, snap.R(0), nil)))
 	case "remove-revision(A,5)":
 		return c14Names(c14One(snapstate.Remove(st, c14A, snap.R(5), nil)))
+	case "remove-revision(I,2)":
+		return c14Names(c14One(snapstate.Remove(st, c14I, snap.R(2), nil)))
 	case "disable(A)":
 		return c14Names(c14One(snapstate.Disable(st, c14A)))
 	case "switch(A)":
